@@ -59,6 +59,11 @@ def run(e: Engine, rep: Report):
              'generator or another one-shot iterator (the copies would be '
              'written but skipped by the rest of the policy chain)')
     p8(e, rep)
+    rep.rule('P9', 'the chain that runs is the chain that was configured: '
+             'add_policy (queue, relay) appends the policy on every path '
+             'that does not raise - nothing but the type check decides '
+             '(repetitions of a policy are part of the chain)')
+    p9(e, rep)
     rep.rule('P7', 'policy objects do not share state: no class-level '
              'mutable object of a policy class is changed in place through '
              'self without __init__ giving each instance its own')
@@ -1043,4 +1048,51 @@ def p8(e: Engine, rep: Report):
                   loc=ctx.func.loc(), reason='returns %s' % show(kk))
     if n < 5:
         rep.error('anchor vanished: QueuePolicy implementations (%d < 5)'
+                  % n)
+
+
+# ---------------------------------------------------------------------- P9
+def p9(e: Engine, rep: Report):
+    n = 0
+    for cq, attr in ((QUEUE, 'queue_policies'),
+                     ('slimta.relay.Relay', 'relay_policies')):
+        ctx = e.method_ctx(cq, 'add_policy')
+        if ctx is None:
+            continue
+        g = e.build(ctx, raises=lambda b, nn, r: set(),
+                    inline=e.inline_same_self(), max_depth=3)
+        where = ctx.func.qname
+        rep.functions.add(where)
+        n += 1
+        rep.evaluations += 1
+
+        def step(nd, label, st, attr=attr):
+            if isinstance(label, tuple):
+                return st
+            if nd.kind == 'call' and isinstance(nd.ast.func, ast.Attribute) \
+                    and nd.ast.func.attr in ('append', 'insert', 'extend') \
+                    and (path_of(nd.ast.func.value, nd.frame) or
+                         '').endswith(attr):
+                return True
+            if nd.kind == 'stmt' and isinstance(nd.ast, (ast.Assign,
+                                                         ast.AugAssign)):
+                tg = nd.ast.targets if isinstance(nd.ast, ast.Assign) \
+                    else [nd.ast.target]
+                if any((path_of(t, nd.frame) or '').endswith(attr)
+                       for t in tg):
+                    return True
+            return st
+        w = dataflow.typestate_witness(
+            g, False, step, lambda nd, st: nd is g.exit and not st)
+        rep.check(w is None, 'P9', where,
+                  'an accepted policy is appended to self.%s' % attr,
+                  'add_policy can return without having added the policy '
+                  'to self.%s: the chain that runs is shorter than the '
+                  'chain that was configured (a policy listed twice runs '
+                  'once; its second effect is missing)' % attr,
+                  loc=ctx.func.loc(), reason='append on every path that '
+                  'returns', witness=dataflow.render_path(w, 10)
+                  if w else None)
+    if n < 2:
+        rep.error('anchor vanished: add_policy of queue and relay (%d < 2)'
                   % n)
